@@ -1175,11 +1175,16 @@ class Qube(object):
     def _new_values_(self):
         """Low-level method to indicate that values have changed.
 
-        This means "unshrunk" will be deleted from the cache if present.
+        This means "unshrunk" and "wod" will be deleted from the cache if
+        present.
         """
 
         if 'unshrunk' in self._cache_:
             del self._cache_['unshrunk']
+
+        # A cached "wod" shares an array of values, but not a Python scalar
+        if 'wod' in self._cache_:
+            del self._cache_['wod']
 
     def _set_mask_(self, mask, antimask=None, check=False):
         """Low-level method to update the mask of an array.
